@@ -1702,6 +1702,9 @@ static string opLts(const vector<string>& a)
 #ifndef VH_NO_NFAS
 #include "ops/op_nfas.inc"
 #endif
+#ifndef VH_NO_BDDLOAD
+#include "ops/op_bddload.inc"
+#endif
 
 // ---------------------------------------------------------------- API sweep (C20): every remaining public entry point of the four
 // encodings is called once on well-formed operands; each call may complete ('R'), throw NotImplementedException ('N') or
@@ -1874,6 +1877,11 @@ static string runCase(const string& kind, const vector<string>& args)
 	if (kind == "ltsutil") return opLtsutil(args);
 #else
 	if (kind == "ltsutil") return "OPDISABLED ltsutil";
+#endif
+#ifndef VH_NO_BDDLOAD
+	if (kind == "bddload") return opBddload(args);
+#else
+	if (kind == "bddload") return "OPDISABLED bddload";
 #endif
 #ifndef VH_NO_NFAS
 	if (kind == "nfas") return opNfas(args);
